@@ -11,7 +11,7 @@ from coincurve import PrivateKey as _SK, PublicKeyXOnly as _PKX
 MUST, MAY, NO, EMPTY = "MUST", "MAY", "NO", "EMPTY"
 
 _HEX64 = re.compile(r"^[0-9a-f]{64}$")
-_HEX128 = re.compile(r"^[0-9a-fA-F]{128}$")
+_HEX128 = re.compile(r"^[0-9a-f]{128}$")
 # control characters on which stdlib json and rapidjson disagree (hex digit case) and for
 # which NIP-01 wants the raw character: every C0 control except \n \r \t \b \f
 _AMBIG = set(range(0x20)) - {0x0A, 0x0D, 0x09, 0x08, 0x0C}
@@ -92,7 +92,7 @@ def well_typed(ev):
     if not (isinstance(ev["pubkey"], str) and _HEX64.match(ev["pubkey"])):
         return False, "pubkey not 64 lowercase hex"
     if not (isinstance(ev["sig"], str) and _HEX128.match(ev["sig"])):
-        return False, "sig not 128 hex"
+        return False, "sig not 128 lowercase hex"
     for f in ("created_at", "kind"):
         if not isinstance(ev[f], int) or isinstance(ev[f], bool):
             return False, "%s not an integer" % f
@@ -103,9 +103,8 @@ def well_typed(ev):
     for t in ev["tags"]:
         if not isinstance(t, list):
             return False, "tag not a list"
-        for i in t:
-            if not isinstance(i, str):
-                return False, "tag item not a string"
+        # items other than strings are not rejected here: the properties only require that,
+        # IF such an event is admitted, it is served back verbatim (C04)
     return True, ""
 
 
@@ -142,6 +141,8 @@ def authentic(ev):
             if len(t) != 4:
                 return False, "delegation tag with %d items" % len(t)
             _, delegator, cond, sig = t
+            if not all(isinstance(x, str) for x in t):
+                return False, "delegation tag item not a string"
             if not _HEX64.match(delegator) and not re.match(r"^[0-9a-fA-F]{64}$", delegator):
                 return False, "delegator not hex"
             tok = ("nostr:delegation:%s:%s" % (ev["pubkey"], cond)).encode("utf-8", "surrogatepass")
